@@ -70,7 +70,7 @@ def _one(args):
 def run_for(prop, root=None, verbose=True, jobs=16):
     root = root or DEFAULT_ROOT
     vs = _load(prop)
-    if not vs:
+    if not vs and not seed_variants(prop):
         if verbose:
             print('  self-test: no variants registered for %s' % prop)
         return True
@@ -82,6 +82,13 @@ def run_for(prop, root=None, verbose=True, jobs=16):
             results = list(ex.map(_one, work))
     else:
         results = [_one(w) for w in work]
+    seeds = [(prop, root, sid, rules_, base) for sid, rules_ in seed_variants(prop)]
+    if seeds:
+        if jobs > 1 and len(seeds) > 2:
+            with ProcessPoolExecutor(max_workers=min(jobs, len(seeds))) as ex:
+                results += list(ex.map(_one_seed, seeds))
+        else:
+            results += [_one_seed(w) for w in seeds]
     bad = [r for r in results if r[1] in ('MISSED', 'FALSE-ALARM', 'broken-variant')]
     cnt = {}
     for r in results:
@@ -106,6 +113,97 @@ def run_for(prop, root=None, verbose=True, jobs=16):
     if results and fired == 0:
         return False
     return not bad
+
+
+# ------------------------------------------------------------------ seeded changes as regression variants
+
+def apply_unified_diff(files, diff_text):
+    """apply a git unified diff to {relpath: text}; returns {relpath: new text} for the touched files (pure python, in memory)"""
+    out = {}
+    cur = None
+    hunks = []
+    lines = diff_text.splitlines()
+    i = 0
+    patches = []
+    while i < len(lines):
+        l = lines[i]
+        if l.startswith('+++ '):
+            path = l[4:].strip()
+            path = path[2:] if path.startswith('b/') else path
+            cur = {'path': path, 'hunks': []}
+            patches.append(cur)
+        elif l.startswith('@@') and cur is not None:
+            import re
+            m = re.match(r'@@ -(\d+)(?:,(\d+))? \+(\d+)(?:,(\d+))? @@', l)
+            h = {'old_start': int(m.group(1)), 'lines': []}
+            cur['hunks'].append(h)
+            i += 1
+            while i < len(lines) and not lines[i].startswith('@@') and not lines[i].startswith('diff --git'):
+                if lines[i].startswith('\\'):
+                    i += 1
+                    continue
+                h['lines'].append(lines[i])
+                i += 1
+            continue
+        i += 1
+    for p in patches:
+        src_lines = files[p['path']].split('\n')
+        res = []
+        pos = 0
+        for h in p['hunks']:
+            start = h['old_start'] - 1
+            res.extend(src_lines[pos:start])
+            pos = start
+            for hl in h['lines']:
+                tag, body = (hl[:1], hl[1:]) if hl else (' ', '')
+                if tag == ' ':
+                    if src_lines[pos] != body:
+                        raise ValueError('context mismatch in %s at line %d' % (p['path'], pos + 1))
+                    res.append(body)
+                    pos += 1
+                elif tag == '-':
+                    if src_lines[pos] != body:
+                        raise ValueError('removal mismatch in %s at line %d' % (p['path'], pos + 1))
+                    pos += 1
+                elif tag == '+':
+                    res.append(body)
+        res.extend(src_lines[pos:])
+        out[p['path']] = '\n'.join(res)
+    return out
+
+
+def seed_variants(prop):
+    """[(seed id, overlay or None, expected rule ids)] for the seeded changes this property's check is recorded to detect"""
+    p = os.path.join(VERIF_DIR, 'seeded', 'DETECTION.json')
+    if not os.path.exists(p):
+        return []
+    table = json.load(open(p))
+    out = []
+    for sid, info in sorted(table.items()):
+        rules_ = info['detected_by'].get(prop)
+        if rules_:
+            out.append((sid, rules_))
+    return out
+
+
+def _one_seed(args):
+    prop, root, sid, rules_, base = args
+    try:
+        diff = open(os.path.join(VERIF_DIR, 'seeded', sid, 'patch.diff')).read()
+        touched = [l[6:].strip() for l in diff.splitlines() if l.startswith('+++ b/')]
+        files = {t: open(os.path.join(root, t), encoding='utf-8').read() for t in touched}
+        overlay = apply_unified_diff(files, diff)
+    except (OSError, ValueError, KeyError) as e:
+        return ('seed:' + sid, 'skipped', 'patch does not apply to the current tree: %s' % str(e)[:80])
+    try:
+        keys = _keys(prop, root, overlay)
+    except AnalysisError as e:
+        return ('seed:' + sid, 'fired', 'ANALYSIS-ERROR(fail-closed): %s' % str(e)[:100])
+    new_f = [k for k in keys if k not in base]
+    hit = [k for k in new_f if k[0] in rules_]
+    if hit:
+        return ('seed:' + sid, 'fired', hit[0][0])
+    return ('seed:' + sid, 'MISSED', 'recorded as detected by %s, now reports %s' % (rules_, sorted({k[0] for k in new_f})))
 
 
 if __name__ == '__main__':
